@@ -144,6 +144,26 @@ def litValue (s : Str) : LitRes :=
   | none => .err
   | some k => readValue k s
 
+/-- `literal.ParseNum` + `NumInfo.Decimal` on an arbitrary string: unlike CUE source, `ParseNum`
+itself accepts a leading sign (`n.neg`, the `-` goes into the buffer) -/
+def parseNumValue (s : Str) : LitRes :=
+  match NumLit.parseNum s with
+  | none => .err
+  | some k =>
+    match s with
+    | 45 :: t =>
+      -- "-0K": the buffer holds only "-" when `decimal` runs (the "0" is appended by `ParseNum`
+      -- only to an EMPTY buffer), `UnmarshalText("-")` fails and the decimal stays NaN
+      let bareZeroMul := match t with
+        | 48 :: c :: _ => NumLit.isMul c
+        | _ => false
+      if bareZeroMul then .nan else
+      match readValue k t with
+      | .ok n => .ok (negNum n)
+      | r => r
+    | 43 :: t => readValue k t
+    | _ => readValue k s
+
 /-! ### printing -/
 
 /-- decimal digits of `n` as ASCII bytes, most significant first (`fuel` ≥ number of digits) -/
